@@ -152,24 +152,22 @@ def gen(prop, oracle, tier):
         if not quick and pr in sel:
             out.append(_spec(prop, oracle, "one", 1, pr, 2, two, dims="d", cond=big))
     if not quick:
-        for pr in sel[:2]:
-            for f in range(ncodes2):
-                out.append(_spec(prop, oracle, "one", 1, pr, 3, two, dims="c", cond=big, fix_first=f))
+        for f in range(ncodes2):  # three symbolic operations from the empty state, partitioned on the first
+            out.append(_spec(prop, oracle, "one", 1, (NONE, NONE), 3, two, dims="c", cond=big, fix_first=f))
     # (3) three jobs, one step (and two steps in thorough)
     tri = [(RUNNING, RUNNING, NONE), (RUNNING, FIREABLE, NONE), (ROLLBACK, RUNNING, NONE), (COMPLETED, RUNNING, NONE), (RUNNING, NONE, NONE)]
     for pr in tri:
         out.append(_spec(prop, oracle, "one", 1, pr, 1, [("d",)] * 3, dims="c", cond=big))
         if not quick:
-            out.append(_spec(prop, oracle, "one", 1, pr, 2, [("d",)] * 3, dims="c", cond=big))
             out.append(_spec(prop, oracle, "one", 1, pr, 1, [("d",)] * 3, dims="cmd", cond=big))
     # (4) other topologies
     heavy = [(RUNNING, NONE), (FIREABLE, NONE), (RUNNING, RUNNING), (ROLLBACK, NONE), (COMPLETED, NONE), (NONE, NONE), (NONE, RUNNING), (RUNNING, FIREABLE)]
     for pr in heavy[:6] if quick else heavy:
-        for Lx in (1,) if (quick or pr not in heavy[:3]) else (1, 2):
+        for Lx in (1,) if (quick or pr != heavy[0]) else (1, 2):
             d = "c" if (Lx == 2 or (quick and NONE not in pr)) else "cd"
             out.append(_spec(prop, oracle, "two", 2, pr, Lx, two, dims=d, cond=big, usage_sym=False))
             out.append(_spec(prop, oracle, "two_multi", 2, pr, Lx, two, dims=d, cond=big, usage_sym=False))
-            out.append(_spec(prop, oracle, "slots", 1, pr, Lx + 1, two, cond=big))
+            out.append(_spec(prop, oracle, "slots", 1, pr, 2, two, cond=big))
             out.append(_spec(prop, oracle, "stacked", 2, pr, Lx, [("w",), ("b",)], dims=d, cond=big, usage_sym=False, tagname="_wb"))
             out.append(_spec(prop, oracle, "stacked", 2, pr, Lx, [("b",), ("w",)], dims=d, cond=big, usage_sym=False, tagname="_bw"))
             out.append(_spec(prop, oracle, "stacked", 2, pr, Lx, [("w",), ("w",)], dims=d, cond=big, usage_sym=False, tagname="_ww"))
